@@ -103,7 +103,40 @@ where
     AtomicIter::counter(it) as *const orx_concurrent_iter::AtomicCounter as usize
 }
 
+/// Moves the iterator of slot 0 to another address (the last slot, which must be empty; back again when it is there) and
+/// overwrites the bytes it occupied with zeros: what a `let moved = it;`, a `Box::new(it)` or a `vec.push(it)` does to a value.
+/// Only called while no operation is in flight and nothing borrows the iterator (single-thread cases, no live buffered iterator).
+fn relocate<I>(slots: &[OnceLock<I>]) -> bool
+where
+    I: ConcurrentIter + AtomicIter<<I as ConcurrentIter>::Item>,
+{
+    let back = rt::RELOCATED.load(std::sync::atomic::Ordering::Relaxed);
+    let (from, to) = if back { (NSLOTS - 1, 0) } else { (0, NSLOTS - 1) };
+    if slots[from].get().is_none() || slots[to].get().is_some() {
+        return false;
+    }
+    let name = {
+        let a = counter_addr(slots[from].get().expect("checked"));
+        rt::loc_name(a)
+    };
+    // SAFETY (harness only): every byte of a `OnceLock` is interior-mutable; nobody else touches the two slots right now
+    unsafe {
+        let a = &slots[from] as *const OnceLock<I> as *mut OnceLock<I>;
+        let b = &slots[to] as *const OnceLock<I> as *mut OnceLock<I>;
+        let payload = slots[from].get().expect("checked") as *const I as usize;
+        let off = payload - a as usize;
+        std::ptr::swap(a, b);
+        std::ptr::write_bytes((a as *mut u8).add(off), 0, std::mem::size_of::<I>());
+    }
+    rt::RELOCATED.store(!back, std::sync::atomic::Ordering::Relaxed);
+    if let Some(n) = name {
+        rt::register_loc(counter_addr(slots[to].get().expect("moved")), n);
+    }
+    true
+}
+
 fn slot_of<I>(slots: &[OnceLock<I>], k: usize) -> &I {
+    let k = if k == 0 && rt::RELOCATED.load(std::sync::atomic::Ordering::Relaxed) { NSLOTS - 1 } else { k };
     match slots.get(k).and_then(|s| s.get()) {
         Some(it) => it,
         None => {
@@ -598,6 +631,8 @@ where
     rt::CLONEPOINT.store(case.clonepoint, std::sync::atomic::Ordering::Relaxed);
     rt::RAWSKIP.store(case.rawskip, std::sync::atomic::Ordering::Relaxed);
     rt::CLONEFROM.store(case.clonefrom, std::sync::atomic::Ordering::Relaxed);
+    rt::RELOCATED.store(false, std::sync::atomic::Ordering::Relaxed);
+    let reloc_at = if nt == 1 { case.relocate } else { None };
     rt::begin_case(nt, iter_kind, case.clonepanic, case.droppanic, src_len);
 
     let mut slots: Vec<OnceLock<I>> = (0..NSLOTS).map(|_| OnceLock::new()).collect();
@@ -633,7 +668,10 @@ where
                     let mut buf = None;
                     let mut first = true;
                     let mut aborted = false;
-                    for op in ops {
+                    for (opi, op) in ops.iter().enumerate() {
+                        if t == 0 && reloc_at == Some(opi) && buf.is_none() {
+                            relocate(slots);
+                        }
                         let granted = rt::wait_grant(t, !first);
                         first = false;
                         if !granted {
@@ -711,6 +749,12 @@ where
         if let Err(p) = r {
             untracked(|| tlog!("panic {}", classify(&*p)));
         }
+    }
+    if rt::RELOCATED.load(std::sync::atomic::Ordering::Relaxed) {
+        // the owner's operation finds the iterator in slot 0: one more move
+        set_track(false);
+        relocate(&slots);
+        set_track(true);
     }
     {
         let r = catch_unwind(AssertUnwindSafe(|| slots.truncate(1)));
